@@ -54,7 +54,9 @@ def make(kind):
     kw = dict(error=err, background=np.full_like(data, 0.1), wcs=w, localbkg_width=4)
     if kind == 'srccat_det':
         det = SourceCatalog(data + 0.5, segm, **kw)
-        return SourceCatalog(data, segm, detection_cat=det, **kw)
+        # the measurement image is over-subtracted (negative sky around the sources): the curve of growth turns over, so that the root
+        # bracket of fluxfrac_radius has to be narrowed for large flux fractions
+        return SourceCatalog(data - 1.5, segm, detection_cat=det, **kw)
     return SourceCatalog(data, segm, **kw)
 
 
@@ -187,6 +189,8 @@ def replay(args):
                 n = len(post['ids'][o])
                 if arg == 'circ':
                     ob.circular_photometry(3.0, name='circ')
+                    if not objkind.startswith('apstats'):       # method calls without a name register nothing - and must leave nothing behind
+                        ob.fluxfrac_radius(1.0); ob.fluxfrac_radius(0.9)
                 elif arg == 'kron':
                     ob.kron_photometry((2.5, 6.0), name='kron2')        # a larger minimum radius than the catalog's own Kron parameters
                 else:
@@ -246,6 +250,8 @@ def run(ctx):
     for h in hists:
         has_extra = any(s['op'] in ('add_extra', 'remove_extra') for s in h)
         jobs.append(('srccat', h))
+        if has_extra and len(jobs) % 2 == 0:
+            jobs.append(('srccat_det', h))        # photometry methods on the over-subtracted catalog (root brackets that have to be narrowed)
         if not has_extra:
             jobs.append(('apstats', h))
             if any(s['op'] == 'index' for s in h) and len(jobs) % 3 == 0:
